@@ -3,7 +3,7 @@
    `all_runs P m` quantifies over EVERY sequence of well-typed answers the environment can give to the
    operations of m (Prog.v): every trash content, every listing order, every error, every reply. *)
 From TV Require Import Prelude.Str Logic.Reply Prog.Prog Cmd.Put Cmd.Scan Cmd.Empty
-  Proofs.ProgProofs Proofs.EmptyProofs Proofs.LogicProofs.
+  Proofs.ProgProofs Proofs.EmptyProofs Proofs.LogicProofs World.World Proofs.WorldProofs Proofs.WorldPurge.
 Open Scope N_scope.
 
 (* trash-empty --dry-run issues no mutating operation at all (makedirs, exclusive create, write, close,
@@ -26,6 +26,19 @@ Print Assumptions no_mutation_without_consent.
 Theorem parse_reply_iff : forall r, parse_reply r = true <-> exists t, r = 121 :: t \/ r = 89 :: t.
 Proof. exact parse_reply_iff_lemma. Qed.
 Print Assumptions parse_reply_iff.
+
+(* ---- on the tree of files (World.v): a dry run, and a run in which consent was not granted, leave every path of every
+   file system they are consistent with exactly as it was (and the open-descriptor state too: World.same) ---- *)
+Theorem dry_run_leaves_the_world_unchanged : forall o, eo_dry_run o = true ->
+  all_runs (fun t _ => forall s s', wrun s t s' -> same s s') (empty_main o).
+Proof. exact dry_run_world_unchanged_lemma. Qed.
+Print Assumptions dry_run_leaves_the_world_unchanged.
+
+Theorem without_consent_the_world_is_unchanged : forall o,
+  all_runs (fun t _ => forall st, accepts (consent_step (eo_interactive o)) Unknown t = Some st -> st <> Granted ->
+                                  forall s s', wrun s t s' -> same s s') (empty_main o).
+Proof. exact no_consent_world_unchanged_lemma. Qed.
+Print Assumptions without_consent_the_world_is_unchanged.
 
 (* ---- non-vacuity: the monitor does reject something, and a denied run with a mutator is rejected ---- *)
 Example consent_rejects_mutator_after_no :
